@@ -30,6 +30,14 @@ inductive Val where
   | numss (l : List (List Nat))     -- robofab blue zones: a list of lists
   deriving DecidableEq, Repr
 
+/-- how one entry of the robofab lib data reaches the format-3 data (`upconvert_ufov1_robofab_data`): an
+    unconditional assignment (an absent entry clears the attribute), an assignment of the flattened zone list made
+    only when the entry is present, an assignment of the value made only when present; for the feature text: the
+    text is appended, a newline and the blocks are appended, the entry gives the order of the blocks -/
+inductive RConv where
+  | direct | flattenIfPresent | copyIfPresent | appendText | newlineThenBlocks | blockOrder
+  deriving DecidableEq, Repr
+
 inductive ConvErr where
   | unknownWidth | unknownCharSet | unknownFontStyle | illTyped
   deriving DecidableEq, Repr
